@@ -645,7 +645,8 @@ impl Geonum {
         let angle_between = other.angle - self.angle;
         let distance_squared = self.mag * self.mag + other.mag * other.mag
             - 2.0 * self.mag * other.mag * angle_between.grade_angle().cos();
-        let distance = distance_squared.sqrt();
+        // rounding can push the radicand just below zero for nearly coincident points
+        let distance = distance_squared.max(0.0).sqrt();
 
         // return as scalar geonum (blade 0)
         Geonum::scalar(distance)
